@@ -142,13 +142,29 @@ int main(int argc, char **argv) {
       Fill(r, am.get(), 0, static_cast<int>(r.below(3)), &b2, thorough, pool, st);
       gm->AddAttributeMetadata(std::move(am));
     }
-    const GeometryMetadata reference(*gm);  // deep copy kept as the oracle's input tree
+    GeometryMetadata reference(*gm);  // deep copy kept as the oracle's input tree
     pc->AddMetadata(std::move(gm));
+    // Some attribute metadata is attached the way an application does it, through PointCloud::AddAttributeMetadata(att_id, ...)
+    // on the finished geometry: it must come back under the unique id of that attribute (which need not equal att_id).
+    const int nlate = g.atts.empty() ? 0 : static_cast<int>(r.below(3));
+    for (int i = 0; i < nlate; ++i) {
+      const vf::Attr &src = g.atts[r.below(g.atts.size())];
+      const int att_id = pc->GetAttributeIdByUniqueId(src.unique_id);
+      if (att_id < 0) continue;
+      std::unique_ptr<AttributeMetadata> am(new AttributeMetadata());
+      int b2 = 10;
+      Fill(r, am.get(), 0, static_cast<int>(r.below(3)), &b2, thorough, pool, st);
+      std::unique_ptr<AttributeMetadata> expect(new AttributeMetadata(*am));
+      expect->set_att_unique_id(pc->attribute(att_id)->unique_id());
+      reference.AddAttributeMetadata(std::move(expect));
+      pc->AddAttributeMetadata(att_id, std::move(am));
+      rep.count(static_cast<uint32_t>(att_id) == src.unique_id ? "attribute_metadata_added_through_point_cloud/unique-id-equals-index" : "attribute_metadata_added_through_point_cloud/unique-id-differs-from-index");
+    }
     st.long_names = st.empty_values = 0;
     Classify(reference, &st.long_names, &st.empty_values);
     for (auto &am : reference.attribute_metadatas()) Classify(*am, &st.long_names, &st.empty_values);
     char d[300];
-    snprintf(d, sizeof d, "%s entries=%lld subs=%lld depth=%lld attmeta=%d long_names=%lld empty_values=%lld | %s", g.is_mesh ? "mesh" : "pc", (long long)st.entries, (long long)st.subs, (long long)st.max_depth, natt,
+    snprintf(d, sizeof d, "%s entries=%lld subs=%lld depth=%lld attmeta=%d long_names=%lld empty_values=%lld | %s", g.is_mesh ? "mesh" : "pc", (long long)st.entries, (long long)st.subs, (long long)st.max_depth, natt + nlate,
              (long long)st.long_names, (long long)st.empty_values, o.Describe().c_str());
     const std::string desc = d;
     rep.note(desc);
